@@ -6,6 +6,7 @@ use verif_hooks::{push_bytes, push_u32, push_u64};
 impl ClientSession {
     /// The protocol-logic part of the state (everything except the two codecs and the clock).
     pub fn verif_fingerprint_logic(&self, out: &mut Vec<u8>) {
+        #[cfg(not(feature = "verif-lax"))]
         let ClientSession {
             start_time: _,
             serializer: _,
@@ -20,13 +21,39 @@ impl ClientSession {
             bytes_received: _, // statistic nothing reads
             bytes_received_since_last_ack,
         } = self;
+        #[cfg(feature = "verif-lax")]
+        let ClientSession {
+            start_time: _,
+            serializer: _,
+            deserializer: _,
+            config,
+            next_transaction_id,
+            outstanding_transactions,
+            current_state,
+            connected_app_name,
+            active_stream_id,
+            peer_window_ack_size,
+            bytes_received: _, // statistic nothing reads
+            bytes_received_since_last_ack,
+            ..
+        } = self;
 
+        #[cfg(not(feature = "verif-lax"))]
         let ClientSessionConfig {
             flash_version,
             playback_buffer_length_ms,
             window_ack_size,
             chunk_size,
             tc_url,
+        } = config;
+        #[cfg(feature = "verif-lax")]
+        let ClientSessionConfig {
+            flash_version,
+            playback_buffer_length_ms,
+            window_ack_size,
+            chunk_size,
+            tc_url,
+            ..
         } = config;
         push_bytes(out, flash_version.as_bytes());
         push_u32(out, *playback_buffer_length_ms);
